@@ -305,5 +305,5 @@ def run_race(ctx, case):
 
 STREAMS = [
     Stream("filter", gen, run, quick=6000, thorough=300000),
-    Stream("filtered_race", gen_race, run_race, quick=160, thorough=6000, shards=16),
+    Stream("filtered_race", gen_race, run_race, quick=160, thorough=60000, shards=16),
 ]
